@@ -97,23 +97,47 @@ Apply2(op, x, y) ==
                      ELSE Num("v", 4 * PowI(x.q \div 4, y.q \div 4))
     [] OTHER -> Err("type")
 
+\* special floats (the documented evaluables inf/0 and nan/0): kind "inf" with q = 1 / -1 (sign), kind "nan".
+\* Only what both reference systems agree on is defined: the constants, unary minus, and + - * with a finite non-zero
+\* operand or an operand that keeps the result infinite; everything else on them is "unrep" (not judged).
+IsSpecial(x) == x.k = "inf" \/ x.k = "nan"
+Inf(s) == Num("inf", s)
+Apply1S(op, x) == IF op = "neg" /\ x.k = "inf" THEN Inf(-x.q) ELSE IF op = "neg" THEN x ELSE Err("unrep")
+Apply2S(op, x, y) ==
+  IF x.k = "nan" \/ y.k = "nan" THEN (IF op \in {"+", "-", "*"} THEN Num("nan", 0) ELSE Err("unrep"))
+  ELSE CASE op = "+" -> IF x.k = "inf" /\ y.k = "inf" THEN (IF x.q = y.q THEN x ELSE Err("unrep"))
+                        ELSE IF x.k = "inf" THEN x ELSE y
+         [] op = "-" -> IF x.k = "inf" /\ y.k = "inf" THEN (IF x.q # y.q THEN x ELSE Err("unrep"))
+                        ELSE IF x.k = "inf" THEN x ELSE Inf(-y.q)
+         [] op = "*" -> LET sx == IF x.k = "inf" THEN x.q ELSE SignV(x.q)
+                            sy == IF y.k = "inf" THEN y.q ELSE SignV(y.q)
+                        IN  IF sx = 0 \/ sy = 0 THEN Err("unrep") ELSE Inf(sx * sy)
+         [] OTHER -> Err("unrep")
+
 RECURSIVE Eval(_)
 Eval(e) ==
   IF e.op = "num" THEN Num(e.k, e.q)
   ELSE IF Len(e.a) = 1
-  THEN LET x == Eval(e.a[1]) IN IF ~x.ok THEN x ELSE Apply1(e.op, x)
+  THEN LET x == Eval(e.a[1]) IN IF ~x.ok THEN x ELSE IF IsSpecial(x) THEN Apply1S(e.op, x) ELSE Apply1(e.op, x)
   ELSE LET x == Eval(e.a[1])
            y == Eval(e.a[2])
-       IN  IF ~x.ok THEN x ELSE IF ~y.ok THEN y ELSE Apply2(e.op, x, y)
+       IN  IF ~x.ok THEN x ELSE IF ~y.ok THEN y
+           ELSE IF IsSpecial(x) \/ IsSpecial(y) THEN Apply2S(e.op, x, y) ELSE Apply2(e.op, x, y)
 
 \* arithmetic comparison of two evaluated expressions
-Compare(op, x, y) ==
+\* IEEE: every comparison with nan is false except =\=; inf is above, -inf below every finite number
+Big == 1000000000
+Ext(x) == IF x.k = "inf" THEN x.q * Big ELSE x.q
+CompareFinite(op, x, y) ==
   CASE op = "=:="  -> x.q = y.q
     [] op = "=\\=" -> x.q # y.q
     [] op = "<"    -> x.q < y.q
     [] op = ">"    -> x.q > y.q
     [] op = "=<"   -> x.q <= y.q
     [] op = ">="   -> x.q >= y.q
+Compare(op, x, y) ==
+  IF x.k = "nan" \/ y.k = "nan" THEN op = "=\\="
+  ELSE CompareFinite(op, [ q |-> Ext(x) ], [ q |-> Ext(y) ])
 
 \* relations with several solutions: the solution SEQUENCE in Prolog order
 RECURSIVE Range(_, _)
